@@ -1264,7 +1264,7 @@ class Engine:
             c = a.conc()
             if c is not None:
                 return Float(float(c))
-            return Float(z3.fpSignedToFP(z3.RNE(), a.t, z3.Float64()) if a.sg else z3.fpUnsignedToFP(z3.RNE(), a.t, z3.Float64()))
+            return Float(z3.fpSignedToFP(z3.RNE(), a.t, z3.Float64()) if a.sg else z3.fpUnsignedToFP(z3.RNE(), a.t, z3.Float64()), src=a)
         if kind == 'FloatToInt':
             bits, sg = int_ty(ty)
             if a.is_conc():
